@@ -388,3 +388,8 @@ Definition call (guarded inplace : bool) (b : body) (n : nat) (x : obj) : after 
          a_outcome := if raises then Raised
                       else Returned (if inplace then None else Some (apply_all w d)) |}
   end.
+
+(* ---- an operation the class refuses (DimensionCoordinate.insert_dimension,
+   dimensioncoordinate.py: a dimension coordinate has 1-d data): the body
+   raises before it writes anything, whatever the in-place switch says *)
+Definition refusing_body : body := BRun (fun _ => []) true.
